@@ -132,6 +132,7 @@ class VirtualSelector:
         w = self.world
         self.polls += 1
         w.clock.blocked = 0.0
+        w.kernel.calls_this_iteration = 0
         injected = False
         h = self.hooks.pop(self.polls, None)
         if h is not None:
@@ -207,6 +208,9 @@ class SimKernel:
         self.beh_for = lambda argv, n: {}     # behaviour chooser (argv, spawn_no)
         self.kids_for = lambda argv, n: []    # children spec chooser
         self.spawn_fail = set()  # spawn attempt numbers that raise OSError
+        self.spawn_fail_errno = errno.ENOENT
+        self.spawn_fail_from = None      # every attempt from this number on fails (a failure that does not go away)
+        self.calls_this_iteration = 0
         self.pipe_files = []     # read ends handed to circus (closed with the world if circus did not)
         self.pipes = []          # [write fd, set of pids holding it open]: a pipe is at EOF when nobody holds it
         self.spawn_attempts = 0
@@ -215,8 +219,21 @@ class SimKernel:
         self.record_calls = False
 
     # -- internals
+    SPIN_LIMIT = 5000
+
     def _enter(self, name):
         self.calls += 1
+        # a loop iteration that makes thousands of kernel calls without ever returning to the selector is a busy
+        # loop: nothing else (requests, checks, timers) can run while it lasts
+        self.calls_this_iteration += 1
+        if self.calls_this_iteration > self.SPIN_LIMIT and name == 'spawn':
+            w = self.world
+            if w.stalled is None:
+                site = '<-'.join(_circus_stack()) or name
+                w.stalled = {'site': 'spin@' + site, 't': round(self.clock.now - EPOCH, 4), 'pid': None,
+                             't_block': self.clock.now,
+                             'why': '%d kernel calls (last: %s) inside one loop iteration' % (self.calls_this_iteration, name)}
+            raise Stalled('spin')
         if self.record_calls:
             self.call_names.append(name)
         f = self.inject.pop(self.calls, None)
@@ -275,8 +292,8 @@ class SimKernel:
         if ppid == DAEMON_PID:
             self._enter('spawn')
             self.spawn_attempts += 1
-            if self.spawn_attempts in self.spawn_fail:
-                raise OSError(errno.ENOENT, 'No such file or directory (injected)')
+            if self.spawn_attempts in self.spawn_fail or (self.spawn_fail_from and self.spawn_attempts >= self.spawn_fail_from):
+                raise OSError(self.spawn_fail_errno, os.strerror(self.spawn_fail_errno) + ' (injected)')
         pid = self.next_pid
         self.next_pid += 1
         if beh is None:
